@@ -543,8 +543,13 @@ Definition migrate_13_5 (tx : str -> str) (fr : list str) (f : obj) : obj * list
 Definition max_result_name : N := 64.
 Definition max_category_name : N := 36.
 
-(* the closure truncate (repaired code: trimmed before and after the cut) *)
-Definition truncate (x : str) (max : N) : str := trim_space (truncate_runes (trim_space x) max).
+(* the closure truncate (repaired code: trimmed before and after the cut; a name that trimming would leave empty --
+   one of nothing but white space -- is only shortened) *)
+Definition truncate (x : str) (max : N) : str :=
+  match trim_space (truncate_runes (trim_space x) max) with
+  | [] => truncate_runes x max
+  | t => t
+  end.
 
 (* v, _ := o[k].(string); if len(v) > max { o[k] = truncate(v, max) } *)
 Definition limit_member (k : str) (max : N) (o : obj) : obj :=
